@@ -20,7 +20,7 @@ from ..oracles import sigmodel as sm
 PID = "C06"
 LEVEL = "exploration"
 RULE = ("full product of operation sequences (depth<=2 quick / 3 thorough, 4 for the plain FunctionSignal) over the "
-        "25-operation signal alphabet x all read masks, on 9 kinds of function-backed signals (plain 1- and 2-component, a memoising function, a grid-dependent function, "
+        "26-operation signal alphabet x all read masks, on 9 kinds of function-backed signals (plain 1- and 2-component, a memoising function, a grid-dependent function, "
         "ZHS/AVZ/ARZ Askaryan, FFT/Full thermal noise under OwnedRandom); and of attribute-assignment sequences "
         "(depth<=2/3) x read masks on Specialized/Basic/Uniform/Layered tracers and their paths; distinct_nontrivial = "
         "distinct (kind, op sequence, mask) with at least one read before a mutation")
@@ -72,7 +72,9 @@ SIG_OPS = ["shift+3", "shift-5", "imul2", "idiv4", "filt_delay2", "filt_lowpass"
            # a second component that carries its own, different filter (same padded length as the first)
            "add_late_lowpass",
            # a filter without force_real next to filters with it; a leading buffer that is not a whole number of samples
-           "filt_delay2_noforce", "buf_lead_frac", "buf_lead10"]
+           "filt_delay2_noforce", "buf_lead_frac", "buf_lead10",
+           # a second component that carries a time offset of its own (it was shifted onto this grid before the addition)
+           "add_late_shifted"]
 SIG_KINDS = ["plain_early", "plain_two", "plain_memo", "plain_gridaware", "plain_decimal", "zhs", "avz", "arz", "fftnoise", "fullnoise"]
 # a grid with a decimal step (0.1): buffer / dt is then subject to rounding (1.0 / 0.1 == 10.0 exactly but 1.0 % 0.1 != 0)
 DEC_DT = 0.1
@@ -222,6 +224,14 @@ def _apply_sig(obj, mod, op):
         if mod:
             mod = mod.copy()
             mod.comps.append(["late", 0.0, 0.0, 0.0, 1.0, []])
+    elif op == "add_late_shifted":
+        other = FunctionSignal(np.array(obj.times) - 2 * dt, FUNCS["late"])
+        other.shift(2 * dt)
+        other.times = np.array(obj.times)          # exactly the same grid (the shift leaves rounding in the last place)
+        obj = obj + other
+        if mod:
+            mod = mod.copy()
+            mod.comps.append(["late", 2 * dt, 0.0, 0.0, 1.0, []])
     elif op == "add_late_lowpass":
         other = FunctionSignal(np.array(obj.times), FUNCS["late"])
         other.filter_frequencies(FILTERS["lowpass"][0], force_real=True)
